@@ -459,6 +459,9 @@ def sample(o, r):
             'result': r['result'], 'by': r['by'], 'time_s': round(r['time'], 3)}
 
 
+_REPLAY_CACHE = {}
+
+
 def try_replay(c, model, rep):
     """replay the counter-model natively; if it does not reproduce, bounded native search of the same contract"""
     if c is None or c.replay is None:
@@ -472,7 +475,10 @@ def try_replay(c, model, rep):
     if code is None:
         rep['replay'] = 'no replay for this obligation'
         return False
-    res = run_native(code, timeout=120)
+    key = hashlib.sha256(code.encode()).hexdigest()
+    if key not in _REPLAY_CACHE:           # the same native search serves every obligation of a function: run it once per run
+        _REPLAY_CACHE[key] = run_native(code, timeout=120)
+    res = _REPLAY_CACHE[key]
     rep['replay_code'] = code
     rep['replay_result'] = res
     return bool(res.get('fails'))
